@@ -317,6 +317,7 @@ class History:
         self.reselect = {i: 0 for i in range(1, nsess + 1)}
         self.size_hint = {b: 0 for b in self.boxes}
         self.snaps = []  # per step: (before, after) white-box snapshots, for the property oracles
+        self.final = []
 
     def snapshot(self, w):
         boxes = {}
@@ -339,8 +340,12 @@ class History:
                     fileseqs = {k: sorted(v) for k, v in w.folder(b).get_sequences().items()}
                 except Exception as e:  # unreadable .mh_sequences is itself an observation
                     fileseqs = {"<error>": [repr(e)]}
+                try:
+                    diskkeys = sorted(int(x) for x in os.listdir(str(w.root / b)) if x.isdigit())
+                except OSError:
+                    diskkeys = []
                 boxes[b] = {"uids": list(mb.uids), "keys": list(mb.msg_keys), "cids": cids, "dates": dates,
-                            "fileseqs": fileseqs,
+                            "fileseqs": fileseqs, "diskkeys": diskkeys,
                             "seqs": {k: sorted(v) for k, v in mb.sequences.items() if v},
                             "next": mb.next_uid, "vv": mb.uid_vv}
         sess = {}
@@ -513,6 +518,49 @@ class History:
             self.obs.append(obs)
             self.snaps.append((pre, self.snapshot(w)))
             self.note(w, op, obs)
+        self.final = self.probe(w)
+
+    def probe(self, w):
+        """read-only probes at the end of a history: FETCH FLAGS and SEARCH by each flag from a fresh
+        EXAMINE session must agree with the mailbox's own state (white box) and with each other"""
+        bad = []
+        for i in range(1, self.nsess + 1):
+            if w.handler(SESS[i]).idling:
+                w.cmd(SESS[i], "DONE")
+        for b in self.boxes:
+            out = w.cmd("S0", f"p EXAMINE {b}")
+            if not out or not out[-1].startswith(b"p OK"):
+                continue
+            mb = w.server.active_mailboxes.get(b)
+            want = {}
+            for key, uid in zip(mb.msg_keys, mb.uids):
+                want[uid] = sorted({"\\Answered" if n == "replied" else "\\Flagged" if n == "flagged" else
+                                    ("\\" + n) if n in ("Deleted", "Draft", "Recent", "Seen") else n
+                                    for n, ks in mb.sequences.items() if key in ks})
+            got = {}
+            for ch in w.cmd("S0", "p UID FETCH 1:* (FLAGS)"):
+                c = W.classify(ch)
+                if c[0] == "fetchflags":
+                    got[c[3]] = c[2]
+            if got != want:
+                bad.append(f"{b}: FETCH FLAGS {got} differs from the mailbox state {want}")
+            for uid, fl in got.items():
+                if ("unseen" in fl) == ("\\Seen" in fl):
+                    bad.append(f"{b}: UID {uid} reports {fl}: \\Seen and unseen are not complements")
+            allflags = sorted({f for fl in got.values() for f in fl})
+            for f in allflags:
+                key = {"\\Seen": "SEEN", "\\Deleted": "DELETED", "\\Flagged": "FLAGGED", "\\Answered": "ANSWERED",
+                       "\\Draft": "DRAFT", "\\Recent": "RECENT"}.get(f, f"KEYWORD {f}")
+                res = None
+                for ch in w.cmd("S0", f"p UID SEARCH {key}"):
+                    c = W.classify(ch)
+                    if c[0] == "search":
+                        res = sorted(c[1])
+                exp = sorted(u for u, fl in got.items() if f in fl)
+                if res != exp:
+                    bad.append(f"{b}: UID SEARCH {key} = {res} but FETCH FLAGS shows it on {exp}")
+            w.cmd("S0", "p UNSELECT")
+        return bad
 
     def _run(self, w, op, issuer):
         # run_op drains every session afterwards; cmd() inside it has already taken the issuer's
@@ -803,3 +851,131 @@ def packs_seen(h: History) -> int:
             if p and p["uids"] == st["uids"] and p["keys"] != st["keys"]:
                 n += 1
     return n
+
+
+# ------------------------------------------------------------------ C04 / C05 / C13 oracles
+SYS_SEQ = {"replied": "\\Answered", "flagged": "\\Flagged", "Deleted": "\\Deleted", "Draft": "\\Draft",
+           "Recent": "\\Recent", "Seen": "\\Seen"}
+
+
+def flag_oracle(h: History):
+    bad = []
+    for k, (op, obs) in enumerate(zip(h.ops, h.obs)):
+        pre, post = h.snaps[k]
+        if not post:
+            continue
+        for box, st in post["boxes"].items():
+            keys = set(st["keys"])
+            seen, unseen = set(st["seqs"].get("Seen", [])), set(st["seqs"].get("unseen", []))
+            if (seen | unseen) != keys or (seen & unseen):
+                bad.append((k, f"{box}: Seen {sorted(seen)} and unseen {sorted(unseen)} are not complements over {sorted(keys)}"))
+        for sid, rs in obs.items():
+            for r in rs:
+                if r[0] == "fetch" and (("unseen" in r[2]) == ("\\Seen" in r[2])):
+                    bad.append((k, f"session {sid}: FETCH {r[1]} reports {r[2]}: \\Seen and unseen not complements"))
+        # \Recent out of a client's reach: a STORE never changes who is \Recent
+        if op[0] == "store" and pre:
+            box = pre["sess"][op[1]]["sel"]
+            if box in pre["boxes"] and box in post["boxes"]:
+                a = set(pre["boxes"][box]["seqs"].get("Recent", []))
+                b = set(post["boxes"][box]["seqs"].get("Recent", [])) & set(pre["boxes"][box]["keys"])
+                if a != b:
+                    bad.append((k, f"{box}: STORE changed the \\Recent set {sorted(a)} -> {sorted(b)}"))
+    for d in h.final:
+        bad.append((len(h.ops) - 1, "final probe: " + d))
+    return bad
+
+
+def exact_oracle(h: History):
+    bad = []
+    for k, (op, obs) in enumerate(zip(h.ops, h.obs)):
+        pre, post = h.snaps[k]
+        if not pre or not post or op[0] == "restart":
+            continue
+        issuer = op[1] if len(op) > 1 and isinstance(op[1], int) else None
+        mine = obs.get(issuer, []) if issuer else []
+        last = mine[-1] if mine else None
+        selbox = pre["sess"][issuer]["sel"] if issuer else None
+        for box, p in pre["boxes"].items():
+            q = post["boxes"].get(box)
+            if q is None:
+                continue
+            removed = [u for u in p["uids"] if u not in q["uids"]]
+            deleted = {p["uids"][p["keys"].index(key)] for key in p["seqs"].get("Deleted", []) if key in p["keys"]}
+            if removed:
+                if not (op[0] in ("expunge", "close", "move") and box == selbox):
+                    bad.append((k, f"{box}: messages {removed} disappeared during {op[0].upper()}"))
+                elif op[0] in ("expunge", "close") and not set(removed) <= deleted:
+                    bad.append((k, f"{box}: {op[0].upper()} removed {removed}, only {sorted(deleted)} were \\Deleted"))
+            if op[0] == "expunge" and op[2] is None and box == selbox and last and last[0] == "ok" \
+                    and not pre["sess"][issuer]["exam"] and set(removed) != deleted:
+                bad.append((k, f"{box}: EXPUNGE removed {removed} but \\Deleted were {sorted(deleted)}"))
+            if op[0] == "move" and box == selbox:
+                code = [r[1] for r in mine if r[0] == "moveok"]
+                want = set(code[0][2]) if code else set()
+                # messages taken in by the resync inside the command may be among the copied ones
+                if set(removed) != (want & set(p["uids"])) or (want & set(q["uids"])):
+                    bad.append((k, f"{box}: MOVE removed {removed} but copied {sorted(want)} (left: {q['uids']})"))
+            # flags of surviving messages may only change through STORE / FETCH / resync of that box
+            if issuer and box == selbox and pre["sess"][issuer]["exam"] and op[0] in ("store", "fetch", "expunge", "close", "move", "search"):
+                for name in set(p["seqs"]) | set(q["seqs"]):
+                    a = set(p["seqs"].get(name, [])) & set(p["keys"])
+                    b = set(q["seqs"].get(name, [])) & set(p["keys"])
+                    if a != b or removed:
+                        bad.append((k, f"{box}: a read-only (EXAMINE) session changed sequence {name}: {sorted(a)} -> {sorted(b)} / removed {removed}"))
+                        break
+            if last in (("no",), ("bad",)) and op[0] not in ("expunge",):
+                if q["uids"][:len(p["uids"])] != p["uids"]:
+                    bad.append((k, f"{box}: a refused {op[0].upper()} changed the message list {p['uids']} -> {q['uids']}"))
+                for name in set(p["seqs"]) | set(q["seqs"]):
+                    a = set(p["seqs"].get(name, [])) & set(p["keys"])
+                    b = set(q["seqs"].get(name, [])) & set(p["keys"])
+                    if a != b and p["keys"] == q["keys"][:len(p["keys"])]:
+                        bad.append((k, f"{box}: a refused {op[0].upper()} changed sequence {name}: {sorted(a)} -> {sorted(b)}"))
+                        break
+        # COPY/MOVE/APPEND add one message per source message with the same flags (+\Recent) and date
+        if op[0] in ("copy", "move"):
+            code = [r[1] for r in mine if r[0] in ("ok", "moveok") and r[1] and r[1][0] == "copyuid"]
+            if code:
+                _, vv, su, du = code[0]
+                dbox = "inbox" if op[4].lower() == "inbox" else op[4]
+                sp, dq = pre["boxes"].get(selbox), post["boxes"].get(dbox)
+                sq = post["boxes"].get(selbox)
+                if sp and dq:
+                    for a, b in zip(su, du):
+                        src = sp if a in sp["uids"] else sq
+                        if not src or a not in src["uids"] or b not in dq["uids"]:
+                            continue
+                        ka, kb = src["keys"][src["uids"].index(a)], dq["keys"][dq["uids"].index(b)]
+                        fa = {n for n, ks in src["seqs"].items() if ka in ks} | {"Recent"}
+                        fb = {n for n, ks in dq["seqs"].items() if kb in ks}
+                        da, db_ = src["dates"][src["uids"].index(a)], dq["dates"][dq["uids"].index(b)]
+                        if fa != fb or da != db_:
+                            bad.append((k, f"copy of UID {a} -> {dbox} UID {b}: flags {sorted(fa)} -> {sorted(fb)}, date {da} -> {db_}"))
+    return bad
+
+
+def mh_oracle(h: History):
+    """the folder's .mh_sequences as an MH tool reads it vs what the IMAP sessions see"""
+    bad = []
+    for k, (op, obs) in enumerate(zip(h.ops, h.obs)):
+        pre, post = h.snaps[k]
+        if not post or op[0] in ("deliver",):
+            continue
+        for box, st in post["boxes"].items():
+            fs = st["fileseqs"]
+            if "<error>" in fs:
+                bad.append((k, f"{box}: .mh_sequences cannot be read: {fs['<error>']}"))
+                continue
+            keys = set(st["keys"])
+            disk = set(st["diskkeys"])
+            for name, ks in fs.items():
+                ghost = [x for x in ks if x not in disk]
+                if ghost:
+                    bad.append((k, f"{box}: .mh_sequences lists {name}: {ghost} but those messages do not exist"))
+            for name in set(fs) | set(st["seqs"]):
+                a = set(fs.get(name, [])) & keys
+                b = set(st["seqs"].get(name, [])) & keys
+                if a != b:
+                    bad.append((k, f"{box}: .mh_sequences has {name}={sorted(a)}, the IMAP sessions see {sorted(b)}"))
+    return bad
